@@ -2843,7 +2843,6 @@ func c19Replay(c *Ctx, run *ev.Run) int {
 	return run.Finish()
 }
 
-
 // c19ResolverUnreachable: a -resolvers list none of whose servers can be reached (TCP to closed
 // loopback ports: refused at once) - a dial through the resolver returns an error; it does not
 // retry for ever. The probe runs in a process of its own; "never returns" is decided on CPU time
